@@ -141,7 +141,8 @@ def gen_program(rng, nlines, mode, count=None):
             cnt('ref_to_line_0')
             return R(0)
         if not zero_ok:
-            pool = [p for p in pool if p != 0] or [endline]
+            # (also not the first line of the program: RENUM 0 gives it the number 0)
+            pool = [p for p in pool if p != 0 and p != nums[0]] or [endline]
         t = rng.choice(pool)
         if t == 0:
             cnt('ref_to_line_0')
@@ -353,12 +354,13 @@ def gen_renum_args(rng, prog):
     elif r < 0.9:
         old = rng.choice(nums)
     else:
-        old = rng.randint(0, 65529)
+        old = rng.choice([0, 0, 1, 65529, rng.randint(0, 65529)])
     old_eff = old or 0
     below = [n for n in nums if n < old_eff]
     k = len([n for n in nums if n >= old_eff])
-    inc = rng.choice([None, None, 1, 2, 5, 10, 100, 1000, rng.randint(1, 2000)])
-    cands = [None, 10, 100, 1000, 5000, 30000, rng.randint(1, 65529)]
+    inc = rng.choice([None, None, 1, 1, 2, 5, 10, 100, 1000, rng.randint(1, 2000), 65529])
+    # explicit boundary values in every position: 0 is a number in its own right (not "omitted"), 1, 65529
+    cands = [None, 10, 100, 1000, 5000, 30000, rng.randint(1, 65529), 0, 0, 1, 65529]
     if below:
         cands += [max(below) + 1, max(below) + rng.randint(1, 500), max(below), max(below) - 1, min(below)]
     if k:
@@ -366,9 +368,9 @@ def gen_renum_args(rng, prog):
         cands += [top, top + 1, top - rng.randint(0, 500)]
     new = rng.choice(cands)
     if new is not None:
-        new = max(1, min(65529, new))
+        new = max(0, min(65529, new))
     if old is not None:
         old = max(0, min(65529, old))
-    if rng.random() < 0.03:
+    if rng.random() < 0.04:
         inc = 0
     return [new, old, inc]
